@@ -521,13 +521,13 @@ func (f *fnState) specBinary(x *spec.Binary, c *specCtx) SV {
 func (f *fnState) streamID(v SV) string {
 	switch v.Sort {
 	case sIface:
-		return fmt.Sprintf("(sid %s)", v.T)
+		return fmt.Sprintf("(rootid (sid %s))", v.T)
 	case sLoc:
 		tag := 0
 		if v.Typ != nil {
 			tag = f.e.typeTag(v.Typ)
 		}
-		return fmt.Sprintf("(sid (mk-if %d %s))", tag, f.locTerm(v))
+		return fmt.Sprintf("(rootid (sid (mk-if %d %s)))", tag, f.locTerm(v))
 	}
 	f.fail("%s: stream identity of sort %s", f.fn, v.Sort)
 	return ""
